@@ -5,25 +5,28 @@ CONFIG = {
         "name": "eval", "pkg": "./ledger/eval/", "run": "^TestVerifC19$",
         "files": ["ledger/eval/zz_verif_c18_test.go", "ledger/eval/zz_verif_c19_test.go"],
         "util": [("ledger/eval", "eval")],
-        "env": {"quick": {"VERIF_C19_UNIVERSES": 120, "VERIF_C19_BLOCKS": 6, "VERIF_C19_GROUPS": 12},
-                "thorough": {"VERIF_C19_UNIVERSES": 4000, "VERIF_C19_BLOCKS": 8, "VERIF_C19_GROUPS": 14}},
+        "env": {"quick": {"VERIF_C19_UNIVERSES": 90, "VERIF_C19_BLOCKS": 8, "VERIF_C19_GROUPS": 12},
+                "thorough": {"VERIF_C19_UNIVERSES": 3000, "VERIF_C19_BLOCKS": 10, "VERIF_C19_GROUPS": 14}},
         "timeout": {"quick": 600, "thorough": 3000},
     }],
     "rule": "one case = one block of the real BlockEvaluator over a closed 9-account ledger; about every second group carries a failing member "
             "(overspend, minimum balance of sender or receiver, dead early/late, duplicate in group / in block / in an earlier block, lease, wrong "
             "authorizer, not well-formed, keyreg errors, close with outstanding assets, asset errors (not opted in, frozen, asset overspend, wrong manager / "
-            "freeze / clawback address, creator closing out, destroy while others hold), genesis hash, fee shortfall, inconsistent / zero / wrong "
+            "freeze / clawback address, creator closing out, destroy while others hold), application failures (rejecting program, err, budget exhaustion, "
+            "schema overflow, box of an under-funded application, failing inner transaction after earlier inner transactions succeeded, opt-in twice, close-out "
+            "without opt-in, missing application), genesis hash, fee shortfall, inconsistent / zero / wrong "
             "group id, oversized group, unknown type, fee sink spending) at a random position of a group of 1..17; after every TransactionGroup "
             "call the evaluator is snapshotted from inside the package (account table through eval.state.lookup, asset params / holdings / creators through GetAssetParams / "
-            "GetAssetHolding / GetCreator, mods.Accts order, Txids with Intra, Txleases, txnCount, feesCollected, len(Payset)).  spec_ok = a rejected group leaves the snapshot identical; an accepted one "
+            "GetAssetHolding / GetCreator, application params / local states / creators / storage counts / boxes, mods.Accts order, Txids with Intra, Txleases, txnCount, feesCollected, len(Payset)).  spec_ok = a rejected group leaves the snapshot identical; an accepted one "
             "adds exactly its transactions (payset, txids in order, counters, fees, leases).  Non-trivial = a rejected group for which the model "
             "says the child cow had been written to before the failure.",
     "exhaustive": {"quick": False, "thorough": False},
     "explanation": "group_atomic holds for every group, every failure kind and position of the modelled evaluator; the correspondence run checks the "
                    "Go evaluator (incl. the sync.Pool reuse of child cows) against it on random histories",
     "assumptions": [
-        "transaction types: payment (with close), key registration, rekey, asset config / transfer / freeze; application calls (rejecting / "
-        "erroring programs, inner transaction failures) are EXCLUDED from this version",
+        "transaction types: payment (with close), key registration, rekey, asset config / transfer / freeze, application calls (programs = arbitrary "
+        "scripts of box / global / local / inner-transaction operations ending in approve, reject, err or budget exhaustion; inner failures such as "
+        "overspending inner payments); NOT modelled: inner application calls, UpdateApplication",
         "signature checking happens before the evaluator (verify package, C28); the evaluator's authorizer check is modelled",
         "not modelled: blockTxBytes / ErrNoSpace, tracer hooks, panics after the commit point (corruptedState)",
     ],
